@@ -79,7 +79,7 @@ pub fn generate(tier: &str, rng: &mut Rng) -> Vec<String> {
         let lo = start.saturating_sub(3);
         for c in lo..=start + n + 3 { v.push(format!("liberr {en} {c}")); }
         for c in [0u32, 1, 2, 3, 4, u32::MAX, u32::MAX - 1] { v.push(format!("liberr {en} {c}")); }
-        for _ in 0..(if tier == "thorough" { 50_000 } else { 500 }) {
+        for _ in 0..(if tier == "thorough" { 200_000 } else { 500 }) {
             let c = if rng.chance(1, 2) { start.wrapping_add(rng.below(64) as u32).wrapping_sub(16) } else { rng.next() as u32 };
             v.push(format!("liberr {en} {c}"));
         }
